@@ -721,6 +721,11 @@ class _function(object):
                 else: 
                     raise ValueError('can only multiply with scalar')
 
+            if len(f) == 1 < other.size[0]:
+                # self is the zero function: zero function of length
+                # len(other)
+                f._constant = matrix(0.0, (other.size[0],1))
+
         else: 
             raise TypeError('incompatible dimensions or types')
 
@@ -778,6 +783,11 @@ class _function(object):
 
                 else: 
                     raise ValueError('can only multiply with scalar')
+
+            if len(f) == 1 < other.size[0]:
+                # self is the zero function: zero function of length
+                # other.size[0]
+                f._constant = matrix(0.0, (other.size[0],1))
 
         else: 
             raise TypeError('incompatible dimensions or types')
